@@ -5,6 +5,7 @@ import (
 	"fmt"
 	"strconv"
 	"strings"
+	"sync/atomic"
 	"time"
 
 	"verif/harness/vgen"
@@ -359,12 +360,18 @@ func next(s *sim, r *vgen.Rand) []dop {
 }
 
 type detResult struct {
-	c     cfg
-	prog  []dop
-	evs   []event
-	stuck string
-	sim   *sim
+	c      cfg
+	prog   []dop
+	evs    []event
+	stuck  string // a call did not return / runaway: observed directly
+	unmet  string // the gate did not see what the predictor expected: the recorded history is judged by Coq
+	sim    *sim
 }
+
+// expectWD is how long the driver waits for the exporter events the predictor expects.
+// After a first unmet expectation (already a reported disagreement) later waits are short.
+var expectWD = watchdog
+var unmetScenarios atomic.Int32
 
 // parseProg reads "q,b,s: e m2 f p s x MO ME MB RO RE" (replay of a deterministic case).
 func parseProg(txt string) (cfg, []dop) {
@@ -463,8 +470,13 @@ func runProg(r *vgen.Rand, fixed []dop, fc cfg) detResult {
 		case dRelease:
 			rg.g.unblock(o.arg)
 		}
-		if !rg.g.waitFor(func() bool { return rg.g.begins >= s.begins && rg.g.ends >= s.ends && rg.g.shuts >= s.shuts }, watchdog) {
-			res.stuck = fmt.Sprintf("gate saw %d/%d/%d export entries/returns/shutdowns, expected %d/%d/%d after %s",
+		if rg.rec.isRunaway() {
+			res.stuck = "runaway: the exporter was called without end"
+			return false
+		}
+		if !rg.g.waitFor(func() bool { return rg.g.begins >= s.begins && rg.g.ends >= s.ends && rg.g.shuts >= s.shuts }, expectWD) {
+			expectWD = 2 * time.Second
+			res.unmet = fmt.Sprintf("gate saw %d/%d/%d export entries/returns/shutdowns, expected %d/%d/%d after %s",
 				rg.g.begins, rg.g.ends, rg.g.shuts, s.begins, s.ends, s.shuts, o.coq())
 			return false
 		}
@@ -541,7 +553,7 @@ func waitDone(c *sctx, k int, done chan struct{}) bool {
 }
 
 func runDet(w *vgen.Writer, r *vgen.Rand, n int) {
-	for i := 0; i < n; i++ {
+	for i := 0; i < n && stuckScenarios.Load() < 2 && unmetScenarios.Load() < 8; i++ {
 		res := genAndRun(r.Fork())
 		ps := make([]string, len(res.prog))
 		for j, o := range res.prog {
@@ -549,8 +561,17 @@ func runDet(w *vgen.Writer, r *vgen.Rand, n int) {
 		}
 		desc := map[string]any{"cfg": coqCfg(res.c), "prog": ps, "history": descHistory(res.evs)}
 		if res.stuck != "" {
+			stuckScenarios.Add(1)
+			if len(res.evs) > 400 {
+				desc["history"] = descHistory(res.evs[:400])
+			}
 			w.Violation("Stuck: "+res.stuck, desc)
 			continue
+		}
+		if res.unmet != "" {
+			unmetScenarios.Add(1)
+			desc["unmet_expectation"] = res.unmet
+			w.Tally("det.unmet_expectation")
 		}
 		term := "CDet " + coqCfg(res.c) + " [" + strings.Join(ps, "; ") + "] " + coqHistory(res.evs)
 		s := res.sim
